@@ -340,6 +340,7 @@ const callFormsFile = `{namespace pr}
 {template .funcforms}
 {randomInt(1)}{randomInt(1) + length(keys(augmentMap(['a': 1], ['b': 2])))}|{round(2.567, 2)}|{round(2.5)}|{floor(2.5)}|{ceiling(2.5)}|{min(1, 2.5)}|{max(1, 2)}|{strContains('abc', 'b')}|{length(range(3))}|{hasData()}|{isNonnull($m)}
 {foreach $x in range(1, 7, 2)}{index($x)}{isFirst($x)}{isLast($x)}{/foreach}
+{foreach $k in keys(['b': 1, 'a': 2, 'd': 3, 'c': 4, 'e': 5, 'f': 6])}{$k}{/foreach}|{keys(['q': 1, 'p': 2, 'r': 3, 's': 4])}|{if isNonnull($m)}{foreach $k in keys($m)}{$k}{/foreach}{/if}
 {let $r1: range(5) /}{let $r2: range(5) /}{let $k1: keys(['a': 1]) /}
 [fresh:{range(3) == range(4) ? 'S' : 'D'}{range(300) == range(1000) ? 'S' : 'D'}{range(2, 9) == range(2, 9) ? 'S' : 'D'}{$r1 == $r2 ? 'S' : 'D'}{$k1 == keys(['a': 1]) ? 'S' : 'D'}{augmentMap(['a': 1], ['b': 2]) == augmentMap(['a': 1], ['b': 2]) ? 'S' : 'D'}{$r1 == $r1 ? 'S' : 'D'}]
 {/template}
